@@ -90,7 +90,7 @@ def _restricting(conds: tuple, table: str) -> bool:
     return bool(conds)
 
 
-@obligation("C01-D1", "IDX: reverse_prefix_map and trie map every URI prefix and URI-prefix synonym to the record's canonical prefix, unconditionally, on the constructor path and in _index", floor=8)
+@obligation("C01-D1", "IDX: reverse_prefix_map and trie map every URI prefix and URI-prefix synonym to the record's canonical prefix, unconditionally, on the constructor path and in _index", floor=4)
 def d1(cx: Cx, ob: Ob) -> None:
     check_table_roles(cx, ob, ["reverse_prefix_map", "trie"])
 
@@ -311,7 +311,10 @@ def is_uri_check(cx: Cx, ob: Ob) -> None:
         if op(t) == "cmp" and t[1] in ("is not", "!=") and is_const(t[3], None):
             x = t[2]
         if x is None:
-            ob.undecide(f"is_uri returns `{show(t)[:70]}`, not a None-test")
+            if self_call(t, me) and t[1][2] not in ("compress", "parse_uri"):
+                ob.violate(fn.qualname, fn.where, f"is_uri is defined through `{show(t)[:60]}`, not through compress/parse_uri of its argument", detail="callee")
+            else:
+                ob.undecide(f"is_uri returns `{show(t)[:70]}`, not a None-test")
             continue
         if self_call(x, me) and x[1][2] in ("compress", "parse_uri", "compress_strict") and x[2][:1] == (arg,):
             kw = dict(x[3])
@@ -325,7 +328,7 @@ def is_uri_check(cx: Cx, ob: Ob) -> None:
             ob.violate(fn.qualname, fn.where, f"is_uri is defined through `{show(x)[:60]}`, not through compress/parse_uri of its argument", detail="callee")
 
 
-@obligation("C01-D5", "order independence: every write to reverse_prefix_map/trie is a keyed store whose key and value depend only on the record being indexed", floor=8)
+@obligation("C01-D5", "order independence: every write to reverse_prefix_map/trie is a keyed store whose key and value depend only on the record being indexed", floor=4)
 def d5(cx: Cx, ob: Ob) -> None:
     ctor = constructor_tables(cx, ob.id)
     idx = index_method_entries(cx, cx.fn(f"{CONV}._index", ob.id), ob.id)
